@@ -48,6 +48,7 @@ func runC03(w *World, r *Report) {
 	c03OldStaysAndCleanup(w, r, ef)
 	c03Atomic(w, r, ef)
 	c03UninstallAccepts(w, r)
+	c03NestedWait(w, r)
 	r.Rule("C03/ERROR-KEPT", "in pkg/action and pkg/kube an error carried across loop iterations is never overwritten by a value that may be nil", 0)
 	if errOverwritten(w, r, "C03/ERROR-KEPT", []string{"pkg/action", "pkg/kube"}) == 0 {
 		r.OKTrivial("C03/ERROR-KEPT", "none", "-", "no error is carried across loop iterations")
@@ -1030,4 +1031,70 @@ func c03UninstallAccepts(w *World, r *Report) {
 		}
 	}
 	r.Check(bad == "" && len(deletes) > 0, "C03/UNINSTALL-ACCEPTS", "Run", w.Pos(fn.Pos()), "only the uninstalled status is turned away", "uninstall turns a release away on "+bad+": the clean-up of a failed atomic install (stored status still pending-install) is refused and the pending revision stays")
+}
+
+// c03NestedWait: an action that pkg/action starts on behalf of another (the rollback of a failed atomic
+// upgrade, the uninstall of a failed atomic install) is given a wait strategy before it runs: the
+// real client rejects the zero value, so without it the recovery itself fails.
+func c03NestedWait(w *World, r *Report) {
+	r.Rule("C03/NESTED-WAIT", "every Rollback or Uninstall that pkg/action creates and runs itself has its WaitStrategy field stored (from the starting action's WaitStrategy or a strategy constant) on every path to its Run", 2)
+	n := 0
+	for _, fn := range w.FuncsIn("pkg/action") {
+		var g *Graph
+		for _, c := range callInstrs(fn) {
+			f, _ := calleeOf(c.Common())
+			if f == nil {
+				continue
+			}
+			name := FuncName(f)
+			if name != "(*pkg/action.Rollback).Run" && name != "(*pkg/action.Uninstall).Run" {
+				continue
+			}
+			obj := c.Common().Args[0]
+			// created here?
+			created := false
+			backSlice(obj, func(v ssa.Value) bool {
+				if cc, ok := v.(*ssa.Call); ok {
+					if nf, _ := calleeOf(cc.Common()); nf != nil && (FuncName(nf) == "pkg/action.NewRollback" || FuncName(nf) == "pkg/action.NewUninstall") {
+						created = true
+					}
+					return true
+				}
+				return false
+			})
+			if !created {
+				continue
+			}
+			if g == nil {
+				g = FullGraph(fn)
+			}
+			var stores []ssa.Instruction
+			for _, b := range fn.Blocks {
+				for _, in := range b.Instrs {
+					st, ok := in.(*ssa.Store)
+					if !ok {
+						continue
+					}
+					fa, ok := st.Addr.(*ssa.FieldAddr)
+					if !ok || !sameValue(fa.X, obj) {
+						continue
+					}
+					if _, _, fld := fieldNameOf(fa); fld == "WaitStrategy" {
+						stores = append(stores, st)
+					}
+				}
+			}
+			n++
+			ok := len(stores) > 0
+			if ok {
+				ex, _ := g.PathExists(entryPos(fn), posOf(c), avoidInstrs(stores...))
+				ok = !ex
+			}
+			r.Fn(FuncName(fn))
+			r.Check(ok, "C03/NESTED-WAIT", FuncName(fn)+"/"+name, w.InstrPos(c), "the nested action is given a wait strategy on every path", "the nested action can run without a wait strategy: the real client's GetWaiter rejects the zero value, so the recovery (atomic rollback / uninstall) fails and the release is left as it is")
+		}
+	}
+	if n == 0 {
+		r.Unk("C03/NESTED-WAIT", "none", "-", "no nested Rollback/Uninstall found in pkg/action (atomic handling expected)")
+	}
 }
